@@ -335,6 +335,11 @@ def specs(draw, rich=True, with_mutation=None, with_subscription=False, max_obje
             # that happen to be attributes of the mapping / object holding the parent value
             fs.append({"name": draw(st.sampled_from(MAPPING_ATTRS)), "type": draw(st.sampled_from(["Int", "String", "[Int]"])), "args": [],
                        "desc": None, "deprecated": None, "absent": True})
+        if draw(st.booleans()):
+            # a field many object types have under one name, each with a type of its own (`id`, `name`, `value` in real schemas):
+            # the same selection text then means different things under different parents
+            fs.append({"name": "shared", "type": draw(st.sampled_from(["Int", "String", "[Int]", "Int!", "ID", "Boolean", objs[0], "[%s]" % objs[-1]])),
+                       "args": [], "desc": None, "deprecated": None})
         types[n] = {"kind": "object", "name": n, "interfaces": impl, "fields": fs, "desc": draw(_DESC)}
     # every interface needs >= 1 implementation for execution worlds; force O0 to implement unimplemented ones
     for i in ifaces:
@@ -373,6 +378,19 @@ def specs(draw, rich=True, with_mutation=None, with_subscription=False, max_obje
             # an argument of a type the schema defines itself (transforms must re-point it like any other reference)
             base = draw(st.sampled_from(inputs + enums + scalars))
             spec["directives"][-1]["args"].append({"name": draw(st.sampled_from(["t", "type_arg"])), "type": draw(st.sampled_from([base, "[%s]" % base, "[%s!]" % base])), "desc": None})
+        elif draw(st.booleans()):
+            # ... or of an input type made for the directive, whose own members are used nowhere else in the schema: the only way
+            # to them leads through the directive's argument
+            types["DirE"] = {"kind": "enum", "name": "DirE", "desc": draw(_DESC),
+                             "values": [{"name": "DirE_V%d" % i, "value": "DirE_V%d" % i, "desc": None, "deprecated": None} for i in range(2)]}
+            types["DirIn"] = {"kind": "input", "name": "DirIn", "desc": draw(_DESC),
+                              "fields": [{"name": "e", "type": "DirE", "desc": None, "default": {"__enum__": "DirE_V1"}},
+                                         {"name": "n", "type": "[Int!]", "desc": None}]}
+            order = list(spec["order"])
+            for n in ("DirE", "DirIn"):
+                order.insert(draw(st.integers(0, len(order))), n)
+            spec["order"] = order
+            spec["directives"][-1]["args"].append({"name": "cfg", "type": draw(st.sampled_from(["DirIn", "[DirIn!]", "DirIn!"])), "desc": None})
     return spec
 
 
@@ -519,8 +537,10 @@ def to_sdl(spec, with_desc=True, force_schema_def=False):
 
 
 # ------------------------------------------------------------------ code-built schema
-def build_code(spec, resolvers=None, order=None):
-    """Build a py_gql Schema with the python API (internal enum values, python_names)."""
+def build_code(spec, resolvers=None, order=None, discover=False):
+    """Build a py_gql Schema with the python API (internal enum values, python_names).
+    discover: only the types the library cannot find by itself are handed over (`types=`); everything reachable from the root
+    types and the directives through fields, arguments, input fields, interfaces and union members is left for it to collect."""
     from py_gql import schema as S
     built = {}
     specials = {"Int": S.Int, "Float": S.Float, "String": S.String, "Boolean": S.Boolean, "ID": S.ID}
@@ -537,7 +557,16 @@ def build_code(spec, resolvers=None, order=None):
 
     def pyval(v, t):
         """spec value -> python default as the schema holds it (enum -> internal value, python names)"""
-        return coerce_ref(spec, t, v)
+        return _scrambled(coerce_ref(spec, t, v))
+
+    def _scrambled(x):
+        # python code writes the entries of a default in whatever order it likes: the declared order of the input fields is the
+        # type's business, not the value's
+        if isinstance(x, dict):
+            return {k: _scrambled(x[k]) for k in reversed(list(x))}
+        if isinstance(x, list):
+            return [_scrambled(y) for y in x]
+        return x
 
     def mk_args(args):
         out = []
@@ -599,11 +628,36 @@ def build_code(spec, resolvers=None, order=None):
     for d in spec.get("directives", []):
         dirs.append(S.Directive(d["name"], d["locations"], args=mk_args(d.get("args")), description=d.get("desc")))
     names = order or spec["order"]
+    if discover:
+        found = reachable(spec)
+        names = [n for n in names if n not in found]
     return S.Schema(query_type=built[spec["query"]],
                     mutation_type=built[spec["mutation"]] if spec["mutation"] else None,
                     subscription_type=built[spec["subscription"]] if spec["subscription"] else None,
                     directives=dirs or None,
                     types=[built[n] for n in names])
+
+
+def reachable(spec):
+    """Names of the types a schema can collect on its own: from the root operation types and the directive arguments through
+    field types, argument types, input field types, implemented interfaces and union members (implementers of an interface are
+    NOT found that way)."""
+    todo = [spec.get(k) for k in ("query", "mutation", "subscription") if spec.get(k)]
+    for d in spec.get("directives", []):
+        todo += [named(parse_t(a["type"])) for a in d.get("args") or []]
+    seen = set()
+    while todo:
+        n = todo.pop()
+        if n in seen or n in BUILTIN_SCALARS or n not in spec["types"]:
+            continue
+        seen.add(n)
+        t = spec["types"][n]
+        todo += t.get("interfaces") or []
+        todo += t.get("members") or []
+        for f in t.get("fields") or []:
+            todo.append(named(parse_t(f["type"])))
+            todo += [named(parse_t(a["type"])) for a in f.get("args") or []]
+    return seen
 
 
 # ------------------------------------------------------------------ reference input coercion
